@@ -165,36 +165,51 @@ fn check_ops(a: Iv, b: Iv, scalars: &[f64], ctx: &mut Ctx) -> PResult {
         }
         let r = ba * *c;
         let r2 = *c * ba;
-        if !valid(&r) || r != r2 {
-            return fail("C16/scale/invalid-interval", format!("{a:?} * {c} = {r:?}, {c} * {a:?} = {r2:?}"));
-        }
-        for x in &pa {
-            let v = q(*x) * q(*c);
-            if !contains(&r, &v, rel.max(if dyadicish(*c) { 0.0 } else { 1e-9 })) {
-                return fail("C16/scale/not-enclosed", format!("{x} in {a:?}, but {c}*{x} = {} is outside {c}*{a:?} = {r:?}", q_to_f64(&v)));
+        // every spelling of the operation (b * c, c * b, b *= c, and likewise for the other operators) is held to the
+        // statement itself - a valid interval enclosing the pointwise results - not to agreement with another spelling
+        let mut m = ba;
+        m *= *c;
+        for (form, r) in [("b * c", &r), ("c * b", &r2), ("b *= c", &m)] {
+            if !valid(r) {
+                return fail(if form == "b *= c" { "C16/scale/assign-form-differs" } else { "C16/scale/invalid-interval" }, format!("{a:?} scaled by {c} ({form}) = {r:?}"));
+            }
+            for x in &pa {
+                let v = q(*x) * q(*c);
+                if !contains(r, &v, rel.max(if dyadicish(*c) { 0.0 } else { 1e-9 })) {
+                    return fail(if form == "b *= c" { "C16/scale/assign-form-differs" } else { "C16/scale/not-enclosed" }, format!("{x} in {a:?}, but {c}*{x} = {} is outside {a:?} scaled by {c} ({form}) = {r:?}", q_to_f64(&v)));
+                }
             }
         }
-        // the compound-assignment forms are the same operations
         {
-            let mut m = ba;
-            m *= *c;
-            if m != r {
-                return fail("C16/scale/assign-form-differs", format!("b = {a:?}; b *= {c} gives {m:?}, b * {c} gives {r:?}"));
-            }
             let mut m2 = ba;
             m2 *= bb;
-            if m2 != p {
-                return fail("C16/mul/assign-form-differs", format!("b = {a:?}; b *= {b:?} gives {m2:?}, the product is {p:?}"));
-            }
             let mut m3 = ba;
             m3 += bb;
-            if m3 != s {
-                return fail("C16/add/assign-form-differs", format!("b = {a:?}; b += {b:?} gives {m3:?}, the sum is {s:?}"));
+            if !valid(&m2) || !valid(&m3) {
+                return fail("C16/mul/assign-form-differs", format!("b = {a:?}; b *= {b:?} gives {m2:?}; b += {b:?} gives {m3:?}"));
+            }
+            for x in &pa {
+                for y in &pb {
+                    let v = q(*x) * q(*y);
+                    if !contains(&m2, &v, rel) {
+                        return fail("C16/mul/assign-form-differs", format!("b = {a:?}; b *= {b:?} gives {m2:?}, which does not enclose {x}*{y} (the binary form gives {p:?})"));
+                    }
+                    let v = q(*x) + q(*y);
+                    if !contains(&m3, &v, rel) {
+                        return fail("C16/add/assign-form-differs", format!("b = {a:?}; b += {b:?} gives {m3:?}, which does not enclose {x}+{y} (the binary form gives {s:?})"));
+                    }
+                }
             }
             let mut m4 = ba;
             m4 += *c;
-            if m4 != ba + *c {
-                return fail("C16/shift/assign-form-differs", format!("b = {a:?}; b += {c} gives {m4:?}, b + {c} gives {:?}", ba + *c));
+            if !valid(&m4) {
+                return fail("C16/shift/assign-form-differs", format!("b = {a:?}; b += {c} gives {m4:?}"));
+            }
+            for x in &pa {
+                let v = q(*x) + q(*c);
+                if !contains(&m4, &v, rel.max(if dyadicish(*c) { 0.0 } else { 1e-9 })) {
+                    return fail("C16/shift/assign-form-differs", format!("b = {a:?}; b += {c} gives {m4:?}, which does not enclose {x}+{c}"));
+                }
             }
         }
         let r = ba + *c;
